@@ -123,5 +123,5 @@ def main(chk):
              "chronological / code-point comparator. Non-trivial = >= 2 distinct key tuples; distinct by (order-by text, where, row count).",
         assumptions=["key values are taken as fselect prints them (metamorphic), so a wrong column value cannot raise a C05 alarm",
                      "string keys compare by Unicode code point (= UTF-8 byte order); ties may appear in any order"],
-        require={"key_kind_dir": 6, "key_exprs": 14},
+        require={"key_kind_dir": 6, "key_exprs": 20},
     )
